@@ -1755,7 +1755,17 @@ def explore(ctx: runner.Ctx):
         + f"; unlinked destination field: {len(POOL)} types x required/optional x {npol} policy "
         "shapes x (top level, nested, nested with a same-named parameter)")
     # 3. nested combinations: source type and a destination derived by local rewrites
-    ctx.given(st_case(), lambda case: sampled(ctx, case), ctx.budget(5000, 240000))
+    budget = ctx.budget(5000, 240000)
+    ctx.given(st_case(), lambda case: sampled(ctx, case), budget)
+    # a soundness oracle is vacuous when nothing is accepted (or nothing refused): that is a broken generator or
+    # environment, not a verdict about the property
+    if not ctx.truncated:
+        for needed in ("outcome:accepted", "outcome:refused", "relation:yes", "relation:no", "sampled:accepted/yes",
+                       "sampled:refused/no", "unlinked_required", "unlinked_optional"):
+            if needed.startswith("sampled:") and budget < 200:  # noqa: PLR2004 -- scaled-down debugging runs
+                continue
+            if not ctx.classes.get(needed):
+                raise env.HarnessError(f"generator starved: no case of class {needed!r} in shard {ctx.shard}")
 
 
 RULE = ("exhaustive part: every ordered pair (S, D) of a fixed pool of field types as the type of one field of "
